@@ -138,6 +138,10 @@ def make_model_class():
                 self.extra_construct(self)
             self._actions(self.prog["root"], -1)
 
+        # target of Simulator.add_initial_method: runs a block of root-like actions
+        def initial(self, idx):
+            self._actions(self.prog.get("initial", [[]])[idx], -3 - idx)
+
         # the single generic handler
         def h(self, seq, node):
             sim = self.simulator
